@@ -48,6 +48,10 @@ def panel_spec(draw, max_geos=6, min_geos=1, max_dates=30, flat=False):
                 for _ in range(draw(st.integers(1, 2)))] if (flat and draw(st.integers(0, 2)) == 0) else []),
       'date_str': draw(st.integers(0, 5)) == 0,
       'row_labels': draw(st.sampled_from([None, None, None, 'kept', 'gaps', 'repeated'])),
+      # a large stable baseline under every geo (levels of ~1e7 moving by tens: numerically demanding, still exact)
+      'offset': draw(st.sampled_from([0, 0, 0, 0, 2 ** 24, 2 ** 26])),
+      # readings stamped at noon instead of midnight
+      'hour': draw(st.sampled_from([0, 0, 0, 12])),
   }
 
 
@@ -96,7 +100,7 @@ def params_spec(draw, n_test, n_dates, n_geos, constraint_p=0.5, allow_budget=Tr
     ranges = [(1, 1), (1, 1), (2, 2), (1, 2), (3, 3), (4, 5), (5, 9)]      # often in conflict with fixed geos / eligible counts
   p['treatment_geos_range'] = list(draw(st.sampled_from(ranges))) if maybe() else None
   p['control_geos_range'] = list(draw(st.sampled_from(ranges))) if maybe() else None
-  p['geo_ratio_tolerance'] = draw(st.sampled_from([0.25, 0.5, 1.0, 1.0, 2.0, 2.0, 3.0, 'inf', 0.1])) if maybe() else None
+  p['geo_ratio_tolerance'] = draw(st.sampled_from([0.25, 0.5, 1.0, 1.0, 2.0, 2.0, 3.0, 'inf', 0.1, 2.0 / 3, 1.0 / 3, 0.2, 0.6])) if maybe() else None
   p['volume_ratio_tolerance'] = draw(st.sampled_from([0.25, 1.0, 4.0, 4.0, 9.0, 9.0, 'inf', 0.05])) if maybe() else None
   p['n_geos_max'] = draw(st.sampled_from([2, 3, 4, 5])) if (maybe() and draw(st.booleans())) else None
   p['n_pretest_max'] = draw(st.integers(n_test + 3, max(n_test + 3, n_dates))) if draw(st.booleans()) else None
@@ -136,4 +140,29 @@ def search_spec(draw, max_geos=6, min_geos=1, constraint_p=0.5, allow_budget=Tru
   params = draw(params_spec(panel['n_test'], panel['n_dates'], len(panel['ids']), constraint_p, allow_budget, allow_share, degenerate,
                             tight_sizes))
   return {'panel': panel, 'elig': elig, 'params': params,
-          'history': draw(st.sampled_from([None, None, None, 'shared-data', 'reused-data', 'other-search-first']))}
+          'history': draw(st.sampled_from([None, None, None, None, 'shared-data', 'reused-data', 'other-search-first', 'params-mutated', 'shared-eligibility']))}
+
+
+BOUNDARY_SPLITS = [(3, 5, 2.0 / 3), (3, 4, 1.0 / 3), (2, 3, 0.5), (2, 5, 1.5), (1, 2, 1.0), (1, 3, 2.0), (2, 4, 1.0), (4, 5, 0.25), (5, 6, 0.2)]
+
+
+@st.composite
+def ratio_boundary_spec(draw, max_geos=8, allow_budget=False, allow_share=False):
+  """Group sizes sitting exactly on the geo-ratio boundary: eligibility pins (most of) s geos to one group and l to the
+  other with l / s == 1 + tolerance, the tolerance being the float nearest to (l - s) / s (not always representable)."""
+  s_, l_, tol = draw(st.sampled_from([x for x in BOUNDARY_SPLITS if x[0] + x[1] <= max_geos]))
+  n = s_ + l_ + draw(st.integers(0, min(2, max_geos - s_ - l_)))
+  panel = draw(panel_spec(max_geos=n, min_geos=n, max_dates=24))
+  small_is_treatment = draw(st.booleans())
+  kinds = [(0, 1, 0) if small_is_treatment else (1, 0, 0)] * s_ + [(1, 0, 0) if small_is_treatment else (0, 1, 0)] * l_
+  kinds += [draw(st.sampled_from([(1, 0, 1), (0, 1, 1), (1, 1, 1), (0, 0, 1)])) for _ in range(n - s_ - l_)]
+  for _ in range(draw(st.integers(0, 2))):
+    i = draw(st.integers(0, s_ + l_ - 1))
+    kinds[i] = draw(st.sampled_from([(1, 1, 0), (1, 1, 1), (kinds[i][0], kinds[i][1], 1)]))     # loosen one of the pinned geos
+  order = list(draw(st.permutations(list(range(n)))))
+  rows = [[panel['ids'][i]] + list(kinds[j]) for i, j in enumerate(order)]
+  params = draw(params_spec(panel['n_test'], panel['n_dates'], n, 0.15, allow_budget, allow_share))
+  params['geo_ratio_tolerance'] = tol
+  params['n_geos_max'] = None
+  return {'panel': panel, 'elig': {'rows': rows, 'as_index': draw(st.booleans()), 'style': 'ratio-boundary', 'col_order': None, 'row_labels': None},
+          'params': params, 'history': None}
